@@ -72,6 +72,10 @@ DOCUMENTED = [
 ]
 
 
+def is_rng_prim(c):
+    return c.path in RNG_PRIMS or c.path.startswith(("getrandom::", "rand::"))
+
+
 def rng_fns(prog):
     out = []
     for f in prog.fns:
@@ -95,7 +99,7 @@ def check(ctx, rep, cfg):
     prog = ctx.prog(cfg)
     tag = "" if cfg == "full" else "[%s]" % cfg
     prims = rng_fns(prog)
-    rep.floor("RNG primitive call sites" + tag, len(prims), 2)
+    rep.floor("RNG primitive call sites" + tag, len(prims), 1)
     srcs = set()
     for f, c in prims:
         ok = f.path.startswith("rng::") and "rand_core::OsRng" in c.full
@@ -113,16 +117,53 @@ def check(ctx, rep, cfg):
                 seeded.append(c.loc())
     rep.ob("SOURCE", "no seedable generator" + tag, not seeded, "seedable RNG constructions: %s" % seeded)
     # ---- ALWAYS --------------------------------------------------------------------------------
+    # functions are analysed with their private helpers folded in and calls of closure / function-item
+    # values resolved (`Self::filled_with(crypto_box_keypair_inplace)` draws randomness although no call
+    # edge of the plain call graph says so)
+    from ..inline import inline
+    views = {}
+
+    def view(k):
+        if k not in views:
+            g = prog.by_key[k]
+            views[k] = inline(prog, g) if g.kind != "closure" else g
+        return views[k]
     always = set(srcs)
-    reach_any = cm.can_reach(prog, [prog.by_key[k] for k in srcs])
+    rev = {}
+    plain = cm.can_reach(prog, [prog.by_key[k] for k in srcs])
+
+    def passes_callable(g):
+        # hands a function item or a closure to a callee (a call the plain call graph does not show)
+        for c in g.calls():
+            for a in c.args:
+                if a.get("k") == "const" and "fn_key" in a:
+                    return True
+                if a.get("k") in ("copy", "move") and not a["p"] and g.locals[a["l"]].get("k") == "closure":
+                    return True
+        return False
+    for g in prog.fns:
+        if g.kind == "closure" or not (g.key in plain or passes_callable(g)):
+            continue
+        for c in view(g.key).calls():
+            for t in prog.callee_fns(c):
+                rev.setdefault(t.key, set()).add(g.key)
+    reach_any = set(srcs)
+    stack = list(srcs)
+    while stack:
+        k = stack.pop()
+        for c in set(rev.get(k, ())) | set(prog._callers.get(k, ()) if prog._callers else ()):
+            if c not in reach_any:
+                reach_any.add(c)
+                stack.append(c)
+    reach_any |= cm.can_reach(prog, [prog.by_key[k] for k in srcs])
     changed = True
     while changed:
         changed = False
         for k in reach_any:
             if k in always:
                 continue
-            f = prog.by_key[k]
-            blocks = [c.bb for c in f.calls() if any(t.key in always for t in prog.callee_fns(c))]
+            f = view(k)
+            blocks = [c.bb for c in f.calls() if any(t.key in always for t in prog.callee_fns(c)) or is_rng_prim(c)]
             if not blocks:
                 continue
             rets = [b for b in range(f.n) if f.blocks[b]["t"]["k"] == "return"]
@@ -131,7 +172,7 @@ def check(ctx, rep, cfg):
                 changed = True
     n_pub = 0
     for k in sorted(reach_any, key=lambda k: prog.by_key[k].path):
-        f = prog.by_key[k]
+        f = view(k)
         if f.kind == "closure" or f.vis != "pub" and not is_trait_impl_pub(prog, f):
             continue
         if k in srcs:
@@ -140,7 +181,7 @@ def check(ctx, rep, cfg):
         detail = "draws from the OS RNG on every path to return"
         if not ok:
             # allowed only when every non-drawing path is an early error return (argument validation)
-            blocks = [c.bb for c in f.calls() if any(t.key in always for t in prog.callee_fns(c))]
+            blocks = [c.bb for c in f.calls() if any(t.key in always for t in prog.callee_fns(c)) or is_rng_prim(c)]
             okerr = err_only_bypass(f, blocks)
             if okerr:
                 ok = True
